@@ -98,6 +98,11 @@ inline std::string run(const std::string& op, const std::string& base, const std
         if (!u.setURL(b.data(), r.data(), u) || u.isRelative()) return "NONE";
         return enc(u.getURLText());
     }
+    if (op == "xmlurlparts") {       // what the resolved URL says about its authority: user|password|host|getPortNum()
+        XMLURL u(mm);
+        if (!u.setURL(b.data(), r.data(), u) || u.isRelative()) return "NONE";
+        return enc(u.getUser()) + "|" + enc(u.getPassword()) + "|" + enc(u.getHost()) + "|" + std::to_string(u.getPortNum());
+    }
     if (op == "xmluri") {
         try {
             XMLUri bu(b.data(), mm);
